@@ -261,8 +261,12 @@ def _run_property(mod, mod_name, prop, tier, seed, timer, only):
             continue
         has_failure = any(k[0] == sub.name for k in buckets)
         for cls, share in sub.min_share.items():
+            # declared shares are what the generator normally delivers with margin; the alarm
+            # threshold is half of it (and needs a sample of >= 60 cases) so that it fires on a
+            # generator that stopped reaching a class, not on seed-to-seed fluctuation
+            share = share * 0.5
             got = rec.classes.get(cls, 0) / float(max(1, rec.cases))
-            if got < share and not has_failure:
+            if rec.cases >= 60 and got < share and not has_failure:
                 starved.append("%s: class %s share %.4f < %.4f" % (sub.name, cls, got, share))
 
     # ---- evidence
